@@ -1,6 +1,6 @@
 (* C01 — explicit tree-automata inclusion is exact under every algorithm selection. Statements only. *)
 From Coq Require Import List NArith Bool.
-From V Require Import Sem Prod Incl TrimDefs TrimProofs Lang InclDefs InclProofs AntichainUp DownIncl BinopDefs BinopProofs ReduceDefs ReduceProofs DownInclSim.
+From V Require Import Sem Prod Incl TrimDefs TrimProofs Lang InclDefs InclProofs AntichainUp DownIncl BinopDefs BinopProofs ReduceDefs ReduceProofs DownInclSim SharedTable.
 
 (* the verdict function every selection must compute (prepare by trimming, then decide) is exact *)
 Theorem C01_exact : forall v A B, incl_model v A B = true <-> (forall t, accepts A t -> accepts B t).
@@ -51,6 +51,13 @@ Theorem C01_down_sim_partial_correct : forall D A B fuel b,
   downs_incl D A B fuel = Some b -> (b = true <-> forall t, accepts A t -> accepts B t).
 Proof. exact downs_incl_partial_correct_b. Qed.
 
+(* operands that share one transition table (copies differing in their final states): comparing the final states is a sufficient
+   test for inclusion, not a necessary one - a checker may use it only to answer "included" *)
+Theorem C01_shared_table_finals_sufficient : forall A F G, fsub F G -> lincl (with_finals F A) (with_finals G A).
+Proof. exact shared_finals_incl. Qed.
+Theorem C01_shared_table_finals_not_necessary : exists A F G, lincl (with_finals F A) (with_finals G A) /\ ~ fsub F G.
+Proof. exact shared_finals_incl_not_necessary. Qed.
+
 Print Assumptions C01_exact.
 Print Assumptions C01_down_sim_partial_correct.
 Print Assumptions C01_down_partial_correct.
@@ -65,3 +72,5 @@ Print Assumptions C01_prepared.
 Print Assumptions C01_incl_dec.
 Print Assumptions C01_nonrec_leaf.
 Print Assumptions C01_nonrec_leaf_old_refuted.
+Print Assumptions C01_shared_table_finals_sufficient.
+Print Assumptions C01_shared_table_finals_not_necessary.
